@@ -331,6 +331,9 @@ def plan_hybrid(pid, tr, sd):
                 # elements are written through the underlying struct and through the attribute
                 [("seta", 0), ("copy", "same"), ("setxa", 0), ("copy", "same"), ("seta", 1), ("setxa", 1)],
             ]
+            if HY.has_href(spec):
+                # reference fields that let go of what they were bound to (M11-C18)
+                hs += [[("ref_release", 0), ("ref_part_release", 0), ("set", 1)], [("ref_release", 1, "rebind"), ("assign_ref_plain", 0, "none"), ("move_nested", 0)]]
             if tr == "thorough":
                 hs += [
                     [("seta", 0), ("move", "other"), ("seta", 0, "nd"), ("copy", "same"), ("assign_nested", 0, "other")],
@@ -349,6 +352,8 @@ def plan_hybrid(pid, tr, sd):
             gs = [g0, dict(g0, defaults="all"), dict(g0, defaults="nested"), dict(variant=1, dim=1), dict(variant=0, dim=0), dict(variant=2, dim=3)]
             if tr == "quick":
                 gs = gs[:3] + [gs[3 + i % 3]]
+            if any(HY.is_h(ft) for _, ft, _d in spec[2]):
+                gs = gs + [dict(g0, defaults="nested0")]
             if any(d is not None and ft[0] == "array" for _, ft, d in spec[2]):
                 gs = gs + [dict(g0, defaults="bcast"), dict(variant=0, dim=1), dict(variant=0, dim=3)]
             for k, g in enumerate(gs):
@@ -503,7 +508,7 @@ def plan_xo(pid, tr, sd):
         elif pid == "C11":
             ms = ["index", "owner", "scalar_array"]
             if has_kind(t, ("struct",)):
-                ms.append("struct_partial")
+                ms += ["struct_partial", "struct_instance_size"]
             if wmode.has_string(t):
                 ms.append("string")
             if has_kind(t, ("array",)):
